@@ -314,8 +314,16 @@ def classify_crash(c):
     if m:
         kind = m.group(1)
         what = re.sub(r"alloc\d+|0x[0-9a-f]+|\d+", "#", m.group(2))[:90]
-        fm = re.search(r"inside `([^`]+)` at [^\n]*?cao-lang/src/([\w/]+\.rs)", st)
-        fr = f"{fm.group(2)}:{re.sub(r'<[^<>]*>', '<>', fm.group(1)).split('::')[-1]}" if fm else "?"
+        # first frame inside the crate: "N: path::to::function\n    at /repo/cao-lang/src/file.rs:L:C" (or "inside `f` at file")
+        fm = re.search(r"\d+: ([^\n]+)\n\s+at [^\n]*?cao-lang/src/([\w/]+\.rs)", st) or re.search(r"inside `([^`]+)` at [^\n]*?cao-lang/src/([\w/]+\.rs)", st)
+        if fm:
+            fn = fm.group(1).strip()
+            while re.search(r"<[^<>]*>", fn):
+                fn = re.sub(r"<[^<>]*>", "", fn)
+            parts = [x for x in fn.split('::') if x]
+            fr = f"{fm.group(2)}:{parts[-1] if parts else '?'}"
+        else:
+            fr = "?"
         if kind in ("unsupported operation", "resource exhaustion"):
             return "inconclusive", f"miri:{kind}", st[-2500:]
         return "violation", f"miri:{kind}:{what}@{fr}", st[-3500:]
